@@ -86,6 +86,7 @@ sgen!(g_server_shutdown, Shutdown);
 sgen!(g_server_extreme, Extreme);
 sgen!(g_server_independent, Independent);
 sgen!(g_server_faults, Faults);
+sgen!(g_server_parked, Parked);
 
 fn g_bytes_roundtrip(r: &mut Rng) -> Scenario {
     Scenario::Bytes(bytes::gen_roundtrip(r))
@@ -302,7 +303,7 @@ pub fn checks() -> Vec<CheckSpec> {
             "abandonment before first poll / after k polls / at a time / when the request is on the wire / when a reply is queued / when the reply was read, crossed with capacity 1-3, buffer 1-3, stalled sink; preemption inside the guard's Drop (hook H2); per-id sink sequence and the cancel obligation at idle points",
             CLIENT_REAL, CLIENT_STUB, &[]),
         spec("C04", "exploration",
-            vec![gen("server.cancel", 3, g_server_cancel), gen("server.general", 1, g_server_general), gen("server.limit", 1, g_server_limit), gen("e2e.cascade", 2, g_e2e_cascade)],
+            vec![gen("server.cancel", 3, g_server_cancel), gen("server.general", 1, g_server_general), gen("server.limit", 1, g_server_limit), gen("server.parked", 1, g_server_parked), gen("e2e.cascade", 2, g_e2e_cascade)],
             q, t,
             "service chains of depth 1-3 over mixed real links with the root call abandoned at a time or when the handler at node k starts (cascade rule at the first unstalled idle point); cancel positioned before/after handler start, completion, response buffering and write; 1-8 concurrent requests; limit on/off; sink stalls",
             SERVER_REAL, SERVER_STUB, &[]),
@@ -326,7 +327,7 @@ pub fn checks() -> Vec<CheckSpec> {
             &["byte stream: SimPipe with virtual latency", "peers and handlers: scripted"],
             &["clock read through hook H1; all virtual instants are whole milliseconds"]),
         spec("C08", "exploration",
-            vec![gen("server.general", 2, g_server_general), gen("server.dups", 3, g_server_dups), gen("server.cancel", 1, g_server_cancel), gen("server.shutdown", 1, g_server_shutdown)],
+            vec![gen("server.general", 2, g_server_general), gen("server.dups", 3, g_server_dups), gen("server.cancel", 1, g_server_cancel), gen("server.shutdown", 1, g_server_shutdown), gen("server.parked", 1, g_server_parked)],
             q, t,
             "scripted peer sends fresh ids, duplicates while in flight, ids reused after their response, cancels and close; handlers complete in every order; response buffer 1,2,3,100",
             SERVER_REAL, SERVER_STUB, &["id reuse after cancel/expiry with a still-buffered response is outside the property's quantifier and excluded from response attribution"]),
@@ -342,7 +343,7 @@ pub fn checks() -> Vec<CheckSpec> {
             "client: last handle dropped / peer EOF at a random point of every run plus at the end of every run; server: inbound EOF after the script with mixed in-flight work",
             BOTH_REAL, BOTH_STUB, &[]),
         spec("C11", "exploration",
-            vec![gen("client.general", 2, g_client_general), gen("client.abandon", 2, g_client_abandon), gen("server.general", 2, g_server_general), gen("server.cancel", 1, g_server_cancel), gen("server.dups", 1, g_server_dups), gen("e2e.general", 1, g_e2e_general)],
+            vec![gen("client.general", 2, g_client_general), gen("client.abandon", 2, g_client_abandon), gen("server.general", 2, g_server_general), gen("server.cancel", 1, g_server_cancel), gen("server.dups", 1, g_server_dups), gen("server.parked", 1, g_server_parked), gen("e2e.general", 1, g_e2e_general)],
             q, t,
             "in-flight and timer counts (hook H3) sampled after every dispatch / request-stream poll, compared with an interval model at every sample and at every idle point",
             BOTH_REAL, BOTH_STUB, &[]),
